@@ -38,6 +38,15 @@ pub struct SignatureAlgorithm {
 	params: SignatureAlgorithmParams,
 }
 
+impl SignatureAlgorithm {
+	/// Whether `other` signs with the same kind of key: the first OID of the
+	/// SubjectPublicKeyInfo algorithm (rsaEncryption, id-ecPublicKey, id-Ed25519) is the same.
+	#[cfg(feature = "x509-parser")]
+	pub(crate) fn same_key_type(&self, other: &SignatureAlgorithm) -> bool {
+		self.oids_sign_alg.first() == other.oids_sign_alg.first()
+	}
+}
+
 impl fmt::Debug for SignatureAlgorithm {
 	fn fmt(&self, f: &mut fmt::Formatter) -> fmt::Result {
 		use algo::*;
